@@ -2,13 +2,6 @@ import Vata.Incl
 /-! feasibility probe (throw-away): productive states, removal of unproductive rules keeps `reach` -/
 namespace Vata
 
-theorem mem_post' {A : TA} {f : Nat} {ss : List (List Nat)} {q : Nat} :
-    q ∈ post A f ss ↔ ∃ r, r ∈ A.rules ∧ r.sym = f ∧ matchKids r.kids ss = true ∧ r.parent = q := by
-  simp only [post, List.mem_map, List.mem_filter, Bool.and_eq_true, beq_iff_eq]
-  constructor
-  · rintro ⟨r, ⟨h1, h2, h3⟩, h4⟩; exact ⟨r, h1, h2, h3, h4⟩
-  · rintro ⟨r, h1, h2, h3, h4⟩; exact ⟨r, ⟨h1, h2, h3⟩, h4⟩
-
 /-- if `qs` are positionwise members of `ss` and every member of every `s ∈ ss` is in `P` then `qs ⊆ P` -/
 theorem all2_sub {qs : List Nat} {ss : List (List Nat)} {P : List Nat} (h : All2 (fun q s => q ∈ s) qs ss)
     (hs : ∀ s, s ∈ ss → ∀ q, q ∈ s → q ∈ P) : ∀ k, k ∈ qs → k ∈ P := by
